@@ -4,7 +4,7 @@ From Coq Require Import List NArith Bool Lia Permutation.
 Import ListNotations.
 From BioVerif Require Import Model.PathIDs Model.AdjRIBOut Model.LocView Model.ImportReplace
   Spec.ExportViewSpec Spec.ReplaceSpec
-  Proofs.AroIDsProofs Proofs.ReplaceProofs Proofs.ImportReplaceProofs.
+  Proofs.AroIDsProofs Proofs.ExportViewC Proofs.ReplaceProofs Proofs.ImportReplaceProofs.
 Local Open Scope N_scope.
 
 Lemma export_with_ext : forall (f g : N -> path -> option path) s pfx p,
@@ -29,9 +29,10 @@ Proof.
   now rewrite E.
 Qed.
 
-(* export side, the fsm's entry point *)
+(* export side, the fsm's entry point, session established *)
 Theorem family_export_converges :
   forall (s : sess) (f : family) (a : aro chain) (c : chain) (v : view),
+  fam_up f = true ->
   rguards (interp (fam_exp f)) (interp c) s v ->
   cur a = fam_exp f -> (s_addpath s = true -> Inv chain a) ->
   ribout_is_export_view (interp (fam_exp f)) s v a ->
@@ -41,7 +42,7 @@ Theorem family_export_converges :
   (forall pfx p, interp (fam_exp (fst x')) pfx p = interp c pfx p) /\
   (forall pfx p, interp (cur (snd x')) pfx p = interp c pfx p).
 Proof.
-  intros s f a c v G Hc I H x' HE. unfold x', fam_replace_export in *. cbn [fst snd] in *.
+  intros s f a c v Up G Hc I H x' HE. unfold x', fam_replace_export in *. cbn [fst snd] in *.
   destruct (chain_eqb c (fam_exp f)) eqn:EQ; cbn [fst snd] in *.
   - (* skipped: the two policies treat every route alike *)
     pose proof (chain_eqb_sound c (fam_exp f) EQ) as S.
@@ -49,25 +50,106 @@ Proof.
     + intros pfx. rewrite (export_view_ext (interp c) (interp (fam_exp f)) s pfx _ S). apply H.
     + intros pfx p. symmetry. apply S.
     + intros pfx p. rewrite Hc. symmetry. apply S.
-  - destruct (replace_converges chain interp s (fam_exp f) c v a G Hc I H HE) as [R C].
+  - rewrite Up in *.
+    destruct (replace_converges chain interp s (fam_exp f) c v a G Hc I H HE) as [R C].
     split; [exact R|]. split; [reflexivity|]. intros pfx p. now rewrite C.
 Qed.
 
-(* import side, the fsm's entry point *)
+(* import side, the fsm's entry point, session established *)
 Theorem family_import_converges :
   forall (f : family) (r : rin) (other l : loc) (c : chain),
+  fam_up f = true ->
   iguards (interp (fam_imp f)) (interp c) r other ->
   Permutation l (other ++ establish (interp (fam_imp f)) r) ->
   let x' := fam_replace_import (f, l) r c in
   Permutation (snd x') (other ++ establish (interp c) r) /\
   (forall pfx p, interp (fam_imp (fst x')) pfx p = interp c pfx p).
 Proof.
-  intros f r other l c G H x'. unfold x', fam_replace_import. cbn [fst snd].
+  intros f r other l c Up G H x'. unfold x', fam_replace_import. cbn [fst snd].
   destruct (chain_eqb c (fam_imp f)) eqn:EQ; cbn [fst snd].
   - pose proof (chain_eqb_sound c (fam_imp f) EQ) as S. split.
     + rewrite (establish_ext (interp c) (interp (fam_imp f)) r S). exact H.
     + intros pfx p. symmetry. apply S.
-  - split; [|reflexivity]. now apply import_replace_converges.
+  - rewrite Up. split; [|reflexivity]. now apply import_replace_converges.
+Qed.
+
+(* established or not: afterwards the address family holds a chain that filters like the new one, and a
+   session that is down keeps its (non-existent) tables *)
+Theorem family_replace_stores :
+  forall (s : sess) (f : family) (a : aro chain) (l : loc) (r : rin) (c : chain) (v : view),
+  (forall pfx p, interp (fam_exp (fst (fam_replace_export s (f, a) c v))) pfx p = interp c pfx p) /\
+  (forall pfx p, interp (fam_imp (fst (fam_replace_import (f, l) r c))) pfx p = interp c pfx p) /\
+  fam_up (fst (fam_replace_export s (f, a) c v)) = fam_up f /\
+  fam_up (fst (fam_replace_import (f, l) r c)) = fam_up f /\
+  (fam_up f = false -> snd (fam_replace_export s (f, a) c v) = a /\ snd (fam_replace_import (f, l) r c) = l).
+Proof.
+  intros s f a l r c v. unfold fam_replace_export, fam_replace_import. cbn [fst snd].
+  split; [|split; [|split; [|split]]].
+  - intros pfx p. destruct (chain_eqb c (fam_exp f)) eqn:E1; cbn [fst fam_exp]; [|reflexivity].
+    symmetry. now apply chain_eqb_sound.
+  - intros pfx p. destruct (chain_eqb c (fam_imp f)) eqn:E2; cbn [fst fam_imp]; [|reflexivity].
+    symmetry. now apply chain_eqb_sound.
+  - destruct (chain_eqb c (fam_exp f)); reflexivity.
+  - destruct (chain_eqb c (fam_imp f)); reflexivity.
+  - intros Dn. rewrite Dn. split.
+    + destruct (chain_eqb c (fam_exp f)); reflexivity.
+    + destruct (chain_eqb c (fam_imp f)); reflexivity.
+Qed.
+
+(* init(): the initial dump of the Loc-RIB is a history like any other *)
+Lemma init_fold_is_feed : forall s (v : view) (vw : view) (a : aro chain),
+  NoDup (map fst v) -> (forall pfx l, In (pfx, l) v -> view_get pfx vw = []) ->
+  snd (fold_left (feed_step chain interp s) v (vw, a)) =
+  fold_left (fun a e => fold_left (fun a p => add_path chain interp s a (fst e) p) (snd e) a) v a.
+Proof.
+  intros s v. induction v as [|[pfx l] v IH]; intros vw a ND HE; cbn [fold_left]; [reflexivity|].
+  cbn [feed_step fst snd]. rewrite (HE pfx l (or_introl eq_refl)).
+  cbn [map fst] in ND. apply NoDup_cons_iff in ND. destruct ND as [NI ND].
+  rewrite IH.
+  - f_equal. unfold change_ops, paths_diff. cbn [filter map app].
+    assert (F : filter (fun p : path => negb (mem_path p [])) l = l).
+    { clear. induction l as [|x l IHl]; [reflexivity|]. cbn [filter]. unfold mem_path at 1.
+      destruct (in_dec path_eq_dec x []) as [[]|_]. cbn [negb]. now rewrite IHl. }
+    rewrite F, fold_left_map. reflexivity.
+  - exact ND.
+  - intros pfx' l' HI. rewrite view_get_set_other; [apply (HE pfx' l'); now right|].
+    intros ->. apply NI. now apply (in_map fst) in HI.
+Qed.
+
+Theorem family_init_converges :
+  forall (s : sess) (f : family) (v : view),
+  guards (interp (fam_exp f)) s v -> NoDup (map fst v) ->
+  let x' := fam_init_export s f v in
+  errs (snd x') = 0 ->
+  ribout_is_export_view (interp (fam_exp f)) s (fst (feed chain interp s (fam_exp f) v)) (snd x') /\
+  fam_up (fst x') = true /\ cur (snd x') = fam_exp f.
+Proof.
+  intros s f v G ND x' HE. unfold x', fam_init_export in *. cbn [fst snd fam_up] in *.
+  assert (EQ : snd (feed chain interp s (fam_exp f) v) =
+               fold_left (fun a e => fold_left (fun a p => add_path chain interp s a (fst e) p) (snd e) a) v (init chain (fam_exp f))).
+  { unfold feed. apply (init_fold_is_feed s); [exact ND|]. intros; reflexivity. }
+  rewrite <- EQ in *. split; [|split; [reflexivity|]].
+  - now apply ribout_is_export_view_partial.
+  - apply (fi_cur chain interp s (fam_exp f) v).
+    unfold feed. apply FI_feed; [assumption|apply incl_refl|apply FI_init|exact HE].
+Qed.
+
+(* a replacement that arrives while the session is down is not lost: the session that comes up next is the
+   one the new policy asks for *)
+Theorem family_down_replace_then_init :
+  forall (s : sess) (f : family) (a : aro chain) (c : chain) (v0 v : view),
+  let f' := fst (fam_replace_export s (f, a) c v0) in
+  guards (interp (fam_exp f')) s v -> NoDup (map fst v) ->
+  let x' := fam_init_export s f' v in
+  errs (snd x') = 0 ->
+  forall pfx, Permutation (map (norm s) (tbl_get pfx (tbl (snd x'))))
+                          (map (norm s) (export_view (interp c) s pfx
+                                           (view_get pfx (fst (feed chain interp s (fam_exp f') v))))).
+Proof.
+  intros s f a c v0 v f' G ND x' HE pfx.
+  destruct (family_init_converges s f' v G ND HE) as [R _]. fold x' in R.
+  destruct (family_replace_stores s f a [] [] c v0) as [S _]. fold f' in S.
+  rewrite <- (export_view_ext (interp (fam_exp f')) (interp c) s pfx _ S). apply R.
 Qed.
 
 (* a replacement is skipped only against the chain of the same direction, and only when nothing changes *)
